@@ -216,10 +216,14 @@ CLAIMS = {
               "write are atomic and both crash points recover exactly (C02's invariant); the one two-write operation of a "
               "log file, the append that completes an index step, recovers from the crash point between its writes to the "
               "file the complete append produces, for any number of earlier index entries and record sizes (torn_index_step, "
-              "through the repair added by fix F24); the repair is the identity on complete files. Found and fixed: F24 (torn "
-              "index step), F25 (index entry before its record), F26 (file before catalogue)."),
+              "through the repair added by fix F24); the other two-write operation, the truncation inside a file (index entries "
+              "zeroed, then records), recovers from the crash point between its writes to the file as it was before the "
+              "truncation, for any cut, any number of dropped index entries and any record sizes, under the scan limit of "
+              "init that the proof forces as a hypothesis (torn_truncation, by induction over the rounds of the repair loop); "
+              "a truncation that drops no index entry is one write; the repair is the identity on complete files. Found and "
+              "fixed: F24 (torn index step), F25 (index entry before its record), F26 (file before catalogue)."),
         note=("machine-checked proof does not decide this property: the crash points of the multi-write operations "
-              "(index step, truncation, rollover, multi-file truncation) are interleavings of four actors' file writes that "
+              "(rollover, multi-file truncation, catalogue and snapshot steps) are interleavings of four actors' file writes that "
               "vary from run to run, so the check enumerates the journals the real code produces; what is trusted: the "
               "interposer (write/pwrite/ftruncate/open/unlink/rename), the crash model of the property itself, the list "
               "specification; compaction and snapshot installation are not enumerated; observed but not demonstrated: an "
